@@ -314,16 +314,27 @@ def relations(ctx, quick):
         ("void g(char *s +intent(out)+charlen(20))", "void g(char *s)", {"s": {"intent": "out", "charlen": 20}}, None),
         ("void g(int v +value)", "void g(int v)", {"v": {"value": True}}, None),
         ("Cx *g() +owner(caller)", "Cx *g()", None, {"owner": "caller"}),
+        # function-level attributes that feed the generated NAMES (read when the format dictionary is filled)
+        ("int getValue() +name(value)", "int getValue()", None, {"name": "value"}),
+        ("void initLibrary(int flag) +name(setup)", "void initLibrary(int flag)", None, {"name": "setup"}),
+        ("int g(int a +intent(in)) +pure", "int g(int a)", {"a": {"intent": "in"}}, {"pure": True}),
+        ("const char *g() +len(30)", "const char *g()", None, {"len": 30}),
+        ("@Cx() +name(new)", "@Cx()", None, {"name": "new"}),
+        ("@~Cx() +name(delete)", "@~Cx()", None, {"name": "delete"}),
+        ("@int getIt() const +name(it)", "@int getIt() const", None, {"name": "it"}),
     ]
     for (inline, plain, attrs, fattrs) in pairs:
-        A = {"library": "optlib", "cxx_header": "o.hpp", "options": {"wrap_python": True},
+        A = {"library": "optlib", "cxx_header": "o.hpp", "options": {"wrap_python": True, "wrap_lua": True},
              "declarations": [{"decl": "class Cx"}, {"decl": inline}]}
+        if inline.startswith("@"):          # a member of the class
+            A["declarations"] = [{"decl": "class Cx", "declarations": [{"decl": inline[1:]}]}]
         B = copy.deepcopy(A)
-        B["declarations"][1] = {"decl": plain}
+        tgt = B["declarations"][0]["declarations"] if inline.startswith("@") else B["declarations"]
+        tgt[-1] = {"decl": plain.lstrip("@")}
         if attrs:
-            B["declarations"][1]["attrs"] = attrs
+            tgt[-1]["attrs"] = attrs
         if fattrs:
-            B["declarations"][1]["fattrs"] = fattrs
+            tgt[-1]["fattrs"] = fattrs
         tag = "r2_%d" % pairs.index((inline, plain, attrs, fattrs))
         ra = run_lib(ctx, A, tag + "_A")
         rb = run_lib(ctx, B, tag + "_B")
